@@ -271,6 +271,26 @@ Proof.
 Qed.
 Print Assumptions C10_restart_while_retrying_refuted.
 
+(* "Deleting the pipe stops the copying" across a clean restart: the registry the next start reads must have been saved
+   without the pipe -- also when that leaves it empty. *)
+Definition C10_deleted_stays_deleted_statement (saved : bool) : Prop :=
+  forall af tags s sched, alive s = false -> dst (run af tags (restart_after_delete saved s) sched) = dst s.
+
+Theorem C10_deleted_stays_deleted : C10_deleted_stays_deleted_statement code_saves_empty_registry.
+Proof. exact deleted_stays_deleted. Qed.
+Print Assumptions C10_deleted_stays_deleted.
+
+(* a savePipes that skips an empty list: a is copied, the only pipe is deleted, clean restart, b is written: the pipe is
+   back and copies b *)
+Theorem C10_deleted_pipe_back_refuted : ~ C10_deleted_stays_deleted_statement false.
+Proof.
+  intros H.
+  pose (e := fun n : Z => {| e_ts := n; e_msg := [x6d]; e_flds := []; e_keep := true |}).
+  pose (s := run true [] (init [] 0) (sched_write [e 1%Z] ++ [LDelete; LWork; LWork])).
+  specialize (H true [] s (sched_write [e 2%Z]) eq_refl). vm_compute in H. discriminate H.
+Qed.
+Print Assumptions C10_deleted_pipe_back_refuted.
+
 (* ---- non-vacuity ---- *)
 Definition ev (n : Z) (k : bool) : event := {| e_ts := n; e_msg := [x6d]; e_flds := [([x66], [x31])]; e_keep := k |}.
 Definition demo_tags : list (bytes * bytes) := [([x61], [x62])].
